@@ -1,5 +1,6 @@
 import Convergen.Model.Method
 import Convergen.Model.Render
+import Convergen.Model.BaseCode
 /-!
 # `Parser.Parse` (L3: `pkg/parser/{parser,interface,method}.go`) and the pipeline up to the
 generated function blocks
@@ -21,6 +22,9 @@ structure ScopeObj where
   docChain : List Nat := []
   /-- method set of the interface, sorted as `types.NewMethodSet` does -/
   methods : List MethodDecl := []
+  /-- byte offsets of the braces of the interface's method list -/
+  lbrace : Nat := 0
+  rbrace : Nat := 0
   deriving Repr, Inhabited
 
 /-- what the parser reads of the setup file -/
@@ -46,13 +50,20 @@ namespace DocState
 def group (s : DocState) (g : Nat) : List Comment := s.groups.getD g []
 def setGroup (s : DocState) (g : Nat) (l : List Comment) : DocState := { s with groups := s.groups.set g l }
 
-/-- `GetDocCommentOn`: the first node of the chain whose `Doc` is set -/
+/-- `GetDocCommentOn`.  The chain lists the doc-bearing AST nodes that enclose the object, innermost
+first, each encoded as `id * 8 + kind` (1 GenDecl, 2 FuncDecl, 3 TypeSpec, 4 Field, 5 File).  The
+first GenDecl / FuncDecl / TypeSpec whose `Doc` is set wins; a Field (an interface method) owns its
+doc — set or not, the search ends there; the File's doc is never used. -/
 def docOn (s : DocState) : List Nat → Option (Nat × Nat)
   | [] => none
-  | n :: rest =>
-    match (s.docOf.getD n none) with
-    | some g => some (n, g)
-    | none => docOn s rest
+  | enc :: rest =>
+    let n := enc / 8
+    let kind := enc % 8
+    if kind == 4 then (s.docOf.getD n none).map fun g => (n, g)
+    else if kind == 5 then docOn s rest
+    else match (s.docOf.getD n none) with
+      | some g => some (n, g)
+      | none => docOn s rest
 
 /-- the `cleanUp` closure: drop the `Doc` pointer when its list became empty -/
 def cleanUp (s : DocState) (node g : Nat) : DocState :=
@@ -92,9 +103,9 @@ abbrev PM' (α : Type) := PState → Except (Halt × PState) (α × PState)
 def failTwice {α : Type} (msg : String) : PM' α :=
   fun st => .error (.error, { st with stderr := st.stderr ++ [msg, msg] })
 
-/-- which options value an interface entry keeps: the Go code stores the parser's defaults
-(`p.opts`) instead of the options it has just parsed. -/
-def storedIntfOpts (_parsed : Options) (parserDefaults : Options) : Options := parserDefaults
+/-- which options value an interface entry keeps: the options parsed from its own doc comment
+(before the repair of DESIGN §5 #1 the parser-wide defaults `p.opts` were stored instead). -/
+def storedIntfOpts (parsed : Options) (_parserDefaults : Options) : Options := parsed
 
 /-- does the doc comment found for an object carry a `:convergen` line -/
 def docHasConvergen (st : PState) (obj : ScopeObj) : Bool :=
@@ -311,7 +322,20 @@ structure FrontResult where
   blocks : List (String × List (String × String)) := []
   /-- comment groups after parsing (for the base code) -/
   groups : List (List Comment) := []
+  /-- comment groups as `InsertComment` leaves them (extents; markers by entry index) -/
+  planted : List CG := []
   deriving Repr, Inhabited
+
+/-- `RemoveMatchComments(file, reGoBuildGen)` followed by the view `InsertComment` has of a group -/
+def groupExtent (g : List Comment) : CG :=
+  let kept := g.filter fun c => !matchGoBuildGen c.text
+  match kept.head?, kept.getLast? with
+  | some f, some l => { pos := f.off, endp := l.off + l.text.utf8ByteSize }
+  | _, _ => { pos := 0, endp := 0, empty := true }
+
+/-- the marker planting of `GenerateBaseCode` on the comment groups left by the parser -/
+def plantMarkers (groups : List (List Comment)) (entries : List ScopeObj) : List CG :=
+  plantAll (groups.map groupExtent) (entries.zipIdx.map fun (o, i) => { lbrace := o.lbrace, rbrace := o.rbrace, id := i })
 
 def front (f : Facts) : FrontResult :=
   let st0 : PState := { docs := { groups := f.file.groups, docOf := f.file.docOf } }
@@ -324,6 +348,7 @@ def front (f : Facts) : FrontResult :=
     | .error (.panic s, st) => { status := "panic", panicSite := s, stderr := st.stderr, stdout := st.stdout }
     | .ok (bss, st) =>
       { status := "ok", stderr := st.stderr, stdout := st.stdout, groups := st.docs.groups,
+        planted := plantMarkers st.docs.groups (pes.map (·.entry.obj)),
         blocks := (pes.zip bss).map fun (pe, bs) =>
           (pe.entry.obj.name, bs.map fun b => (b.fn.name, funcToString b.fn)) }
 
